@@ -26,7 +26,7 @@ RULE = ("Hypothesis-generated 2D/3D plotfiles (1-9 fields, odd and even counts, 
         "name, species once more in the species block; min/max table has exactly one row per field whose numbers "
         "parse to the 3-significant-digit extrema of the header tables (all levels / finest level); marinate (3D): "
         "unpickled reader has equal metadata and reads bit-identical boxes, .pkl beside the input. "
-        "Non-trivial = odd field count >= 3, or no species, or names related by prefix / metacharacters, or a "
+        "After the plotfile is rewritten on the same mesh, marinate runs again and must reflect the data on disk. Non-trivial = odd field count >= 3, or no species, or names related by prefix / metacharacters, or a "
         "non-finite time / extremum.")
 ASSUMPTIONS = ["classification of the few known names in the generator's pool follows the PeleLMeX naming listed in the README (own small table, not menu's regex table)"]
 
@@ -342,4 +342,28 @@ def check_case(case, ctx):
                 v[-1] += " [after the plotfile was rewritten; a pickle of the old one lies beside it]"
         except BaseException as e:
             v.append(f"menu raised {type(e).__name__}: {e} on the rewritten plotfile")
+        if not v and locals().get("pkl") and "." not in pname:
+            # ... and marinating it again gives a reader of what is on disk now (same mesh, other data and extrema)
+            ctx.label("marinate-again-after-rewrite")
+            old = sys.argv
+            sys.argv = ["marinate", pname]
+            try:
+                capture(marinate.main)
+                with open(pkl, "rb") as fh:
+                    obj = pickle.load(fh)
+                fresh = qcall(PlotfileCooker, pname, maxmins=True, ghost=True)
+                for lv in range(fresh.limit_level + 1):
+                    for key in ("mins", "maxs"):
+                        a, b = obj.cells[lv].get(key), fresh.cells[lv].get(key)
+                        if a is None or b is None or list(a) != list(b) or not all(
+                                np.array_equal(np.asarray(a[f]), np.asarray(b[f]), equal_nan=True) for f in b):
+                            v.append(f"marinated again after the plotfile was rewritten: per-box {key} of level {lv} are not those of the plotfile on disk")
+                    for b in range(len(fresh.boxes[lv])):
+                        if not refread.same_bits(qcall(lambda: obj[:][lv][b]), plot2.box_data(lv, b)):
+                            v.append(f"marinated again after the plotfile was rewritten: level {lv} box {b} does not read the data on disk")
+                            break
+            except BaseException as e:
+                v.append(f"marinating the rewritten plotfile again: {type(e).__name__}: {e}")
+            finally:
+                sys.argv = old
     return v
